@@ -17,5 +17,6 @@ func controlsC06() []Control {
 		{Name: "dead-seat label skip only for occupied seats", Expect: "R7", Mutate: replaceIn("(*tableEngine).updatePlayerPositions", "if seatPlayer, exist := te.sm.Seats()[seatID]; exist {\n\t\t\tif seatPlayer != nil && seatPlayer.Active() {", "if seatPlayer, exist := te.sm.Seats()[seatID]; exist && seatPlayer != nil {\n\t\t\tif seatPlayer.Active() {", 0)},
 		{Name: "labels handed out starting at the dealer seat", Expect: "R8", Mutate: replaceIn("(*tableEngine).updatePlayerPositions", "for i := bbSeatID; i < maxSeat+bbSeatID; i++ {", "for i := dealerSeatID; i < maxSeat+dealerSeatID; i++ {", 0)},
 		{Name: "labels given to ineligible seated players too", Expect: "R8", Mutate: replaceIn("(*tableEngine).updatePlayerPositions", "if seatPlayer != nil && seatPlayer.Active() {", "if seatPlayer != nil && seatPlayer.IsIn {", 0)},
+		{Name: "dealt-in flags computed before the rotation", Expect: "R9", Mutate: replaceIn("(*tableEngine).openGame", "\t// Step 4: 計算座位\n", "\tfor i := 0; i < len(cloneTable.State.PlayerStates); i++ {\n\t\tplayer := cloneTable.State.PlayerStates[i]\n\t\tactive, err := te.sm.IsPlayerActive(player.PlayerID)\n\t\tif err != nil {\n\t\t\treturn oldTable, err\n\t\t}\n\t\tplayer.IsParticipated = active\n\t}\n\t// Step 4: 計算座位\n", 0)},
 	}
 }
